@@ -4,6 +4,7 @@ use super::*;
 
 include!("/verif/hooks/common.rs");
 include!("/verif/spec/h263_tables.rs");
+include!("/verif/spec/h263_vlc_tables.rs");
 
 // walk a VLC table along a code word given as a string of '0'/'1' (the semantics `read_vlc` is proved against in C14)
 fn walk<T: Clone>(table: &[Entry<T>], code: &str) -> Option<(T, usize)> {
@@ -82,6 +83,106 @@ fn h_mvd_table<S: Src>(s: &mut S) {
     s.reach();
 }
 
+fn mbt_code(t: MacroblockType) -> u8 {
+    match t {
+        MacroblockType::Inter => 0,
+        MacroblockType::InterQ => 1,
+        MacroblockType::Inter4V => 2,
+        MacroblockType::Intra => 3,
+        MacroblockType::IntraQ => 4,
+        MacroblockType::Inter4Vq => 5,
+    }
+}
+fn prefix_tree<T>(table: &[Entry<T>]) -> bool {
+    let mut refs = [0u8; 64];
+    let mut ok = table.len() <= 64;
+    let mut i = 0;
+    while i < table.len() {
+        if let Entry::Fork(z, o) = &table[i] {
+            if *z >= table.len() || *o >= table.len() || *z == 0 || *o == 0 || *z == *o {
+                ok = false;
+            } else {
+                refs[*z] += 1;
+                refs[*o] += 1;
+            }
+        }
+        i += 1;
+    }
+    // every slot is reachable; forks have exactly one parent (no cycles, no shared subtrees); a leaf may be shared (e.g. one `Invalid` leaf)
+    let mut k = 1;
+    while k < table.len() {
+        if refs[k] == 0 || (refs[k] != 1 && matches!(&table[k], Entry::Fork(..))) {
+            ok = false;
+        }
+        k += 1;
+    }
+    ok && refs[0] == 0
+}
+fn mcbpc_ok(table: &[Entry<BlockPatternEntry>], spec: &[(&str, u8, bool, bool)]) -> (bool, bool) {
+    let mut ok = true;
+    let mut k = 0;
+    while k < spec.len() {
+        let (code, t, cb, cr) = spec[k];
+        match walk(table, code) {
+            Some((BlockPatternEntry::Valid(mt, b, r), used)) => {
+                if mbt_code(mt) != t || b != cb || r != cr || used != code.len() {
+                    ok = false;
+                }
+            }
+            _ => ok = false,
+        }
+        k += 1;
+    }
+    let stuffing = matches!(walk(table, h263_vlc_spec::MCBPC_STUFFING), Some((BlockPatternEntry::Stuffing, 9)));
+    let mut valid = 0;
+    let mut stuff = 0;
+    let mut i = 0;
+    while i < table.len() {
+        match &table[i] {
+            Entry::End(BlockPatternEntry::Valid(..)) => valid += 1,
+            Entry::End(BlockPatternEntry::Stuffing) => stuff += 1,
+            _ => {}
+        }
+        i += 1;
+    }
+    (ok && stuffing, valid == spec.len() && stuff == 1)
+}
+// MCBPC for I and P pictures == Tables 7 and 8/H.263; CBPY == Table 13/H.263
+fn h_mb_tables<S: Src>(s: &mut S) {
+    let (vi, ci) = mcbpc_ok(&MCBPC_I_TABLE[..], &h263_vlc_spec::MCBPC_I[..]);
+    chk!(s, vi, "macroblock.MCBPC_I_TABLE.table7: every code word of Table 7 decodes to its macroblock type and chroma pattern; stuffing is 0000 0000 1");
+    chk!(s, ci && prefix_tree(&MCBPC_I_TABLE[..]), "macroblock.MCBPC_I_TABLE.table7_complete: 8 value leaves and one stuffing leaf in a well-formed code tree");
+    let (vp, cp) = mcbpc_ok(&MCBPC_P_TABLE[..], &h263_vlc_spec::MCBPC_P[..]);
+    chk!(s, vp, "macroblock.MCBPC_P_TABLE.table8: every code word of Table 8 decodes to its macroblock type and chroma pattern; stuffing is 0000 0000 1");
+    chk!(s, cp && prefix_tree(&MCBPC_P_TABLE[..]), "macroblock.MCBPC_P_TABLE.table8_complete: 24 value leaves and one stuffing leaf in a well-formed code tree");
+    let mut ok = true;
+    let mut k = 0;
+    while k < 16 {
+        let (code, v) = h263_vlc_spec::CBPY_INTRA[k];
+        match walk(&CBPY_TABLE_INTRA[..], code) {
+            Some((Some(b), used)) => {
+                let got = ((b[0] as u8) << 3) | ((b[1] as u8) << 2) | ((b[2] as u8) << 1) | (b[3] as u8);
+                if got != v || used != code.len() {
+                    ok = false;
+                }
+            }
+            _ => ok = false,
+        }
+        k += 1;
+    }
+    let mut leaves = 0;
+    let mut i = 0;
+    while i < CBPY_TABLE_INTRA.len() {
+        if let Entry::End(Some(_)) = &CBPY_TABLE_INTRA[i] {
+            leaves += 1;
+        }
+        i += 1;
+    }
+    chk!(s, ok, "macroblock.CBPY_TABLE_INTRA.table13: every code word of Table 13 decodes to its luminance pattern (INTRA sense; INTER is the complement)");
+    chk!(s, leaves == 16 && prefix_tree(&CBPY_TABLE_INTRA[..]), "macroblock.CBPY_TABLE_INTRA.table13_complete: exactly 16 value leaves in a well-formed code tree");
+    s.reach();
+}
+
 #[cfg(kani)]
 mod proofs {
     use super::*;
@@ -89,6 +190,11 @@ mod proofs {
     #[kani::unwind(140)]
     fn mvd_table() {
         h_mvd_table(&mut KSrc)
+    }
+    #[kani::proof]
+    #[kani::unwind(70)]
+    fn mb_tables() {
+        h_mb_tables(&mut KSrc)
     }
 }
 
@@ -98,6 +204,7 @@ mod replay {
     fn dispatch(name: &str, r: &mut RSrc) -> bool {
         match name {
             "mvd_table" => h_mvd_table(r),
+            "mb_tables" => h_mb_tables(r),
             _ => return false,
         }
         true
